@@ -10,7 +10,7 @@ from vlib import F, Malformed, Scene, build_driver, driver_info, key_of, main, m
 
 ID = 'C10'
 LEVEL = 'exploration'
-RULE = ('pairs and triples of legend-free, tag-free, quote-free diagrams (random grids over the full alphabet, windows of the '
+RULE = ('pairs and triples of legend-free, quote-free diagrams (a twelfth of the parts carries a {tag} inside an open or closed figure; random grids over the full alphabet, windows of the '
         'bundled diagrams, boxes, circles, diagonals, arrows) placed side by side or stacked with gaps of 1..3 blank columns/rows, '
         'in both orders; non-trivial = distinct composition in which at least two parts draw something')
 ASSUMPTIONS = ['numbers may differ by 1e-3 cell; kinds, classes, flags and text must be equal']
@@ -145,6 +145,14 @@ def run_shard(ctx, shard):
                 # one part is a big page of many separate figures (size thresholds of the grouping code)
                 kind, rows = 'page', gen.page(rng, rng.choice([20, 40, 70, 140]))
                 ctx.tag('compositions_with_page')
+            elif rng.random() < 0.08:
+                # a figure carrying a {tag}: which element a tag styles is decided by comparing bounding boxes of
+                # everything on the page (open figures: a slope's box encloses the tag; closed: a box with a tag)
+                if rng.random() < 0.6:
+                    kind, rows = 'annotated_open', gen.annotated_open(rng)
+                else:
+                    kind, rows = 'annotated_box', gen.tagged_shape(rng)
+                ctx.tag('compositions_with_tagged_part')
             else:
                 kind, rows = gen.diagram(rng, circles, small=True)
             # a part is a block: its own blank border rows/columns are kept as they are
